@@ -1,6 +1,6 @@
 (* C11 -- property theorems only.  Proofs live in C11/Proofs*.v. *)
 From Coq Require Import NArith List Bool.
-From DV Require Import Base.Outcome Base.Bytes Base.Names Base.PName C11.Gen C11.Model C11.Proofs C11.Proofs2 C11.Proofs3 C11.Frame C11.Proofs4 C11.Proofs5.
+From DV Require Import Base.Outcome Base.Bytes Base.Names Base.PName C11.Gen C11.Model C11.Proofs C11.Proofs2 C11.Proofs3 C11.Frame C11.Proofs4 C11.Proofs5 C11.Proofs6.
 Import ListNotations.
 Local Open Scope N_scope.
 
@@ -188,3 +188,13 @@ Print Assumptions C11_verify_restores_octets.
 Theorem C11_from_message_no_fuel : forall m, wf_bytes m -> 12 <= mlen m -> from_message m <> OutOfFuel.
 Proof. exact from_message_no_fuel. Qed.
 Print Assumptions C11_from_message_no_fuel.
+
+(* building the response to a rejected request: with the plain-FORMERR shape in
+   the source (T1) it never panics and carries the RFC's RCODE *)
+Theorem C11_unsigned_error_response_total : forall mac k req now code,
+  formerr_plain_response = true ->
+  server_request mac k req now = Err (SE_UNSIGNED + code) ->
+  exists rc, unsigned_error_rcode req code = Ok rc /\
+    (code = RC_FORMERR -> rc = RC_FORMERR) /\ (code <> RC_FORMERR -> rc = RC_NOTAUTH).
+Proof. exact unsigned_error_response_total. Qed.
+Print Assumptions C11_unsigned_error_response_total.
